@@ -62,3 +62,15 @@ impl rssl_text::CompileError for ExportError {
         }
     }
 }
+
+/// Verification hook (only with `--cfg trark_rssl_verif`): the syntax tree handed to the formatter
+#[cfg(trark_rssl_verif)]
+pub fn verif_generate_ast(
+    module: &rssl_ir::Module,
+    for_spirv: bool,
+) -> Result<rssl_ast::Module, ExportError> {
+    match ast_generate::generate_module(module, for_spirv) {
+        Ok(output) => Ok(output.ast_module),
+        Err(err) => Err(ExportError::GenerateError(err)),
+    }
+}
